@@ -14,14 +14,14 @@ open StepModel StepModel.IStream StepModel.P21 StepModel.P21.Lemmas StepModel.P2
 
 /-- what stands between `#id` (inclusive) and the terminating `;` of an entry: ordinary characters (anything but `;`, an
     apostrophe, `/` and NUL), comments with any body that does not close early and is not longer than what `ReadComment`
-    reads (`Generated.maxCommentLength`: beyond it the code abandons the comment and skips to the NEXT `;`, which the reader
-    model does not follow), and string literals of the Part 21
+    reads (`Generated.commentLengthLimit`: `some n` — beyond n the code abandons the comment and skips to the NEXT `;`, which the
+    reader model does not follow; `none` since repair C01-9: any length), and string literals of the Part 21
     grammar (any body: `;`, doubled apostrophes, `#`, parentheses, `/*`, control directives) followed by a character that
     is not an apostrophe (in a record: `,` or `)`) -/
 inductive EntryText : List Byte → Prop
   | nil : EntryText []
   | plain {c : Byte} {t : List Byte} : plainc c = true → EntryText t → EntryText (c :: t)
-  | comment {body t : List Byte} : NoClose body → body.length ≤ Generated.maxCommentLength → EntryText t →
+  | comment {body t : List Byte} : NoClose body → (∀ n, Generated.commentLengthLimit = some n → body.length ≤ n) → EntryText t →
       EntryText ((47 :: 42 :: (body ++ [42, 47])) ++ t)
   | string {b : List Byte} {y : Byte} {t : List Byte} : StringBody b → y ≠ 39 → EntryText (y :: t) →
       EntryText ((39 :: (b ++ [39])) ++ y :: t)
